@@ -41,6 +41,7 @@ func (core *JApiCore) compileUserTypes() *jerr.JApiError {
 }
 
 func (core *JApiCore) buildUserTypes() *jerr.JApiError {
+	var regexErr *jerr.JApiError
 	core.Catalog().GetRawUserTypes().EachSafe(func(k string, v *directive.Directive) {
 		switch notation.SchemaNotation(v.NamedParameter("SchemaNotation")) {
 		case "", notation.SchemaNotationJSight:
@@ -55,11 +56,18 @@ func (core *JApiCore) buildUserTypes() *jerr.JApiError {
 			if core.useFixedSeedForRegex {
 				oo = append(oo, regex.WithGeneratorSeed(0))
 			}
-			core.userTypes.Set(k, regex.New(k, v.BodyCoords.Read(), oo...))
+			ut := regex.New(k, v.BodyCoords.Read(), oo...)
+			if err := catalog.CheckRegexUserType(k, ut); err != nil && regexErr == nil {
+				regexErr = v.BodyError(err.Error())
+			}
+			core.userTypes.Set(k, ut)
 		default:
 			// nothing
 		}
 	})
+	if regexErr != nil {
+		return regexErr
+	}
 
 	// Add rules to all types before we try to do something with any of them:
 	// looking for the dependencies of a type loads the types it uses, and rules
